@@ -8,7 +8,7 @@ from ..ctx import flatten_cond, walk_path
 from ..finite import UNKNOWN, feval
 from ..kinds import acc_alloc, find_k_term, is_k_derivation, is_four
 
-GRAMMAR_OPS = {'+', '-', '*', '//', '%', '**'}
+GRAMMAR_OPS = {'+', '-', '*', '//', '%', '**', '<<', '>>', '&', '|', '^'}
 
 
 def strip_int(t):
